@@ -778,7 +778,10 @@ func (t *Tree) Compile(file string, args []string, out io.Writer) (err error) {
 						ordered.PushBack(element.Copy())
 					} else {
 						class := &node{Type: TypeUnorderedAlternate}
-						for d := range unicode.MaxRune {
+						for d := rune(0); d <= unicode.MaxRune; d++ {
+							if d >= 0xD800 && d <= 0xDFFF {
+								continue
+							}
 							if properties[i].s.Has(d) {
 								class.PushBack(&node{Type: TypeCharacter, string: string(d)})
 							}
